@@ -361,6 +361,9 @@ func AuthorizeTokenExchangeClient(ctx context.Context, clientID, clientSecret st
 	if err != nil {
 		return nil, oidc.ErrInvalidClient().WithParent(err)
 	}
+	if !ValidateGrantType(client, oidc.GrantTypeTokenExchange) {
+		return nil, oidc.ErrUnauthorizedClient().WithDescription("client missing grant type " + string(oidc.GrantTypeTokenExchange))
+	}
 
 	return client, nil
 }
